@@ -34,3 +34,23 @@ if __name__ == '__main__':
         n = 8
         ex = [quad(lambda x: comb(n, i)*x**(i-1)*(1-x)**(n-i-1)*(-np.expm1(-2*g*(1-x)))/(-np.expm1(-2*g)), 0, 1, epsabs=0, epsrel=1e-12)[0] for i in range(1, n)]
         print(g, np.max(np.abs(equil_sfs(n, g, 0.5)/np.array(ex)-1)))
+
+
+def selfcheck():
+    """closed forms: neutral theta/i; genic selection against adaptive quadrature of the textbook density."""
+    from scipy.integrate import quad
+    from scipy.special import comb
+    n = 8
+    got = equil_sfs(n, 0.0, 0.5)
+    if np.max(np.abs(got * np.arange(1, n) - 1)) > 1e-10:
+        return False
+    for g in (-30.0, -2.0, 3.0, 15.0):
+        ex = [quad(lambda x: comb(n, i) * x ** (i - 1) * (1 - x) ** (n - i - 1) * (-np.expm1(-2 * g * (1 - x))) / (-np.expm1(-2 * g)),
+                   0, 1, epsabs=0, epsrel=1e-12)[0] for i in range(1, n)]
+        if np.max(np.abs(equil_sfs(n, g, 0.5) / np.array(ex) - 1)) > 1e-9:
+            return False
+    # size and breeding-ratio scaling: (gamma, nu, beta) enter only through g = gamma*nu*K and the prefactor nu*K
+    a = equil_sfs(n, -3.0, 0.3, nu=2.0, theta0=1.5, beta=2.0)
+    K = 4 * 2.0 / 9.0
+    b = equil_sfs(n, -3.0 * 2.0 * K, 0.3, nu=1.0, theta0=1.0, beta=1.0) * 2.0 * 1.5 * K
+    return bool(np.max(np.abs(a / b - 1)) < 1e-12)
